@@ -231,6 +231,35 @@ class Inliner:
         this_repl = None
         if (not is_lambda) and recv is not None and not _is_this(recv):
             this_repl = recv
+        # locals of the spliced body that collide with a name of the caller are renamed (no capture)
+        caller_names = set(q.get("name") for q in f.get("params", []) if q.get("name"))
+        for bl in f["blocks"]:
+            for e in bl["events"]:
+                if e.get("k") in ("decl", "ctor") and e.get("var"):
+                    caller_names.add(e["var"])
+        pnames = set(q.get("name") for q in params if q.get("name"))
+        rename = {}
+        for bl in gb:
+            for e in bl["events"]:
+                if e.get("k") in ("decl", "ctor") and e.get("var") and e["var"] in caller_names and e["var"] not in pnames and not is_lambda:
+                    rename[e["var"]] = "%s$%d" % (e["var"], tag)
+        if rename:
+            def _rn_pred(n):
+                return n.get("k") == "var" and n.get("name") in rename and not n.get("param")
+
+            def _rn_repl(n):
+                return dict(n, name=rename[n["name"]])
+            for bl in gb:
+                newev = []
+                for e in bl["events"]:
+                    e = _walk_replace(e, _rn_pred, _rn_repl)
+                    if e.get("k") in ("decl", "ctor", "dtor") and e.get("var") in rename:
+                        e = dict(e, var=rename[e["var"]])
+                    newev.append(e)
+                bl["events"] = newev
+                t_ = bl.get("term", {})
+                if t_.get("cond") is not None:
+                    t_["cond"] = _walk_replace(t_["cond"], _rn_pred, _rn_repl)
 
         def fix(x):
             def pred(n):
